@@ -10,7 +10,7 @@
    the calls the code makes on that state (same items applied).  IterBatchUpd/IterBatchDel are the two
    IterBatched variants (batch callbacks, error answers, partial batches); DesSetMany is a bulk Desired().Set. *)
 From Coq Require Import List NArith ZArith Bool.
-From Verif.C18 Require Import Model Spec Proofs Cache Meets.
+From Verif.C18 Require Import Model Spec Proofs Cache Meets MeetsCache.
 Import ListNotations.
 Open Scope N_scope.
 
@@ -169,14 +169,35 @@ Theorem c18_model_meets_spec : forall (fixed : bool) (kd : kind) (univ : list N)
 Proof. exact model_meets_spec. Qed.
 Print Assumptions c18_model_meets_spec.
 
-(* CachingMap runs (valuesEqual = identity): Desired() changes, LoadCacheFromDataplane, ApplyUpdatesOnly /
-   ApplyDeletionsOnly / ApplyAllChanges with arbitrary injected failures; the ApplyAllChanges records cover every
-   pending key.  PARTIAL: runs that also write the dataplane map behind the cache's back (ExtSet/ExtDel) or use
-   Dataplane()-side tracker operations are exercised by the correspondence run but are not covered by this theorem
-   (cop_ok excludes them). *)
-Theorem c18_model_meets_spec_cache_partial : forall (fixed : bool) (kd : kind) (univ : list N) (ops : list (cop N)),
+(* CachingMap runs (valuesEqual = identity, as CachingMap fixes it), ALL operations of the model: Desired()
+   changes and raw tracker operations (incl. Dataplane()-side ones and iterations), writes to the real map behind the
+   cache's back (ExtSet/ExtDel), LoadCacheFromDataplane, ApplyUpdatesOnly / ApplyDeletionsOnly / ApplyAllChanges with
+   arbitrary injected failures, on the per-key path and on the DataplaneBatchedMap path (CUpdB/CDelB/CAllB).
+   cvalid: raw tracker operations as in c18_model_meets_spec; batched records are the calls the code makes; when an
+   ApplyAllChanges returned nil, its recorded calls cover every key that was pending. *)
+Theorem c18_model_meets_spec_cache : forall (fixed : bool) (kd : kind) (univ : list N) (ops : list (cop N)),
   (forall a b, veq_of kd a b = true -> a = b) ->
   cvalid fixed kd (cst0 N) ops ->
   ok_trace kd univ ops (run_obs fixed kd univ (cst0 N) ops) = true.
 Proof. exact model_meets_spec_cache. Qed.
-Print Assumptions c18_model_meets_spec_cache_partial.
+Print Assumptions c18_model_meets_spec_cache.
+
+(* The DataplaneBatchedMap path of ApplyUpdatesOnly / ApplyDeletionsOnly is the per-key path run on exactly the items
+   the batch calls reported done, all succeeding (so the c18_cache_* theorems carry over to it). *)
+Theorem c18_cache_batched_update_is_per_key : forall (V : Type) (veq : V -> V -> bool)
+  (fixed lf : bool) (calls : list (list (N * V) * (nat * N))) (c : cst V),
+  Inv V veq (c_t (fst (c_maybe_load V veq fixed lf c))) -> snd (c_maybe_load V veq fixed lf c) = 0%Z ->
+  let shown := snd (c_upd_b V veq fixed lf calls c) in
+  fst (fst (c_upd_b V veq fixed lf calls c)) =
+  fst (fold_left (c_upd_visit V) (map (fun kv => (fst kv, snd kv, true)) (applied_of shown)) (fst (c_maybe_load V veq fixed lf c), 0%Z)).
+Proof. exact c_upd_b_per_key. Qed.
+Print Assumptions c18_cache_batched_update_is_per_key.
+
+Theorem c18_cache_batched_delete_is_per_key : forall (V : Type) (veq : V -> V -> bool)
+  (fixed lf : bool) (calls : list (list (N * V) * (nat * N))) (c : cst V),
+  Inv V veq (c_t (fst (c_maybe_load V veq fixed lf c))) -> snd (c_maybe_load V veq fixed lf c) = 0%Z ->
+  let shown := snd (c_del_b V veq fixed lf calls c) in
+  fst (fst (c_del_b V veq fixed lf calls c)) =
+  fst (fold_left (c_del_visit V) (map (fun kv => (fst kv, true)) (applied_of shown)) (fst (c_maybe_load V veq fixed lf c), 0%Z)).
+Proof. exact c_del_b_per_key. Qed.
+Print Assumptions c18_cache_batched_delete_is_per_key.
